@@ -602,7 +602,7 @@ func writeEvidence(prop, tier string, seed int, spec *PropSpec, outcomes []*entr
 			"native_replays":                replays,
 			"native_confirmed":              confirmed,
 			"status":                        status,
-			"explanation":                   "bounded symbolic execution of /repo's current go/ssa by gosmt; every branch, panic obligation and assertion decided by z3 over all inputs within the stated bounds",
+			"explanation":                   explainRun(outcomes),
 		},
 		"assumptions": spec.Assumptions,
 	}
@@ -626,3 +626,16 @@ func firstNonZero(a, b int) int {
 }
 
 func cmdSelftest(args []string) int { return 0 }
+
+// explainRun states what decided the run: SMT queries over symbolic data, or (for harnesses without
+// symbolic data) plain enumeration of event/schedule forks by the same executor.
+func explainRun(outcomes []*entryOutcome) string {
+	q := 0
+	for _, oc := range outcomes {
+		q += oc.res.Queries
+	}
+	if q == 0 {
+		return "bounded execution of /repo's current go/ssa by gosmt; the harnesses of this run carry no symbolic data: every fork is an enumerated event, map-order or schedule choice and no SMT query was needed (0 queries)"
+	}
+	return "bounded symbolic execution of /repo's current go/ssa by gosmt; every symbolic branch, panic obligation and assertion decided by z3 over all inputs within the stated bounds; forks on events/schedules are enumerated by the same executor"
+}
